@@ -31,6 +31,7 @@ pub fn catch<T, F: FnOnce() -> T>(f: F) -> Option<T> {
 }
 
 pub fn silence_panics() {
+  if std::env::var("HPX_PANIC_VERBOSE").is_ok() { return; }
   panic::set_hook(Box::new(|_| {}));
 }
 
@@ -80,7 +81,8 @@ impl Out {
   pub fn stat(&mut self, key: &str) { *self.stats.entry(key.to_string()).or_insert(0) += 1; }
   pub fn stat_n(&mut self, key: &str, n: u64) { *self.stats.entry(key.to_string()).or_insert(0) += n; }
   pub fn violation(&mut self, kind: &str, input: String, expected: String, observed: String) {
-    if self.violations.len() < 200 {
+    let n_kind = *self.stats.get(&format!("violation:{}", kind)).unwrap_or(&0);
+    if self.violations.len() < 400 && n_kind < 25 {
       let cut = |s: String| if s.len() > 1500 { let mut e = 1500; while !s.is_char_boundary(e) { e -= 1; } format!("{}…(truncated, {} bytes)", &s[..e], s.len()) } else { s };
       self.violations.push(Violation { kind: kind.to_string(), input: cut(input), expected: cut(expected), observed: cut(observed) });
     }
